@@ -298,6 +298,10 @@ def scenario_params(tier):
         if tier == "quick" and (ctx_a == ctx_b or fl_a != fl_b):
             continue
         out.append({"late": [(ctx_a, fl_a, "adopt", 2), (ctx_b, fl_b, "adopt", 4)]})
+    # services created from outside while the polling loop iterates over existing ones
+    for flavour in FLAVOURS:
+        out.append({"services_before": ["asyncio", "trio"],
+                    "late": [("outside", flavour, "service", 0)], "late_at": 0.0})
     # 3a. services whose instances are falsy (container-like classes)
     out.append({"services_before": FLAVOURS, "falsy": True})
     for context, flavour in itertools.product(["outside", "trio"], FLAVOURS):
@@ -334,9 +338,17 @@ def run(ctx):
                      "time_jump_cost": None if ctx.quick else 1},
             "budget": 3000 if ctx.quick else 30000,
         })
-    if not ctx.quick:
+    if ctx.quick:
+        # the registry of service units is shared between the creating thread and the polling
+        # loop: only loop-iteration granularity can interleave them
+        specs += H.line_variants(
+            specs, lambda p: p.get("services_before") == ["asyncio", "trio"] and p.get("late")
+            and p["late"][0][1] == "trio")
+    else:
         specs += H.line_variants(
             specs, lambda p: p.get("race") or len(p.get("late", ())) == 2
+            or (p.get("services_before") == ["asyncio", "trio"] and p.get("late"))
+            or (p.get("late") and p["late"][0][0] == "early")
             or (p.get("late") and p["late"][0][2] == "service" and p.get("late_at") == 0.0))
     ctx.pmap(H.shard, specs, cost=lambda s: s["opts"].get("line_points", False))
     H.finish(
